@@ -227,7 +227,16 @@ func c20Run(c *ev.Ctx) {
 				for _, l := range levels {
 					for _, conc := range []int{1, 2} {
 						lens := []int{0, 1, B - 1, B, B + 1, 2*B + 5}
-						for li, n := range lens {
+						for li0 := 0; li0 < len(lens)*4; li0++ {
+							li, kindIdx := li0%len(lens), li0/len(lens)
+							n := lens[li]
+							if size != "64K" {
+								// larger block sizes: one content kind per case, cycling
+								if kindIdx > 0 {
+									break
+								}
+								kindIdx = (i + li) % 4
+							}
 							i++
 							if !c.Next() {
 								continue
@@ -235,7 +244,7 @@ func c20Run(c *ev.Ctx) {
 							if B >= 1<<20 && !c.Thorough() && li%2 == 1 && l != 0 {
 								continue
 							}
-							k := c20Case{Size: size, BC: bc, SC: sc, Level: l, Conc: conc, Len: n, Kind: []string{"zeros", "lcg", "text"}[i%3], Perm: perms[i%3], Stdio: i%4 == 0, Second: -1}
+							k := c20Case{Size: size, BC: bc, SC: sc, Level: l, Conc: conc, Len: n, Kind: []string{"zeros", "lcg", "text", "mixed"}[kindIdx], Perm: perms[i%3], Stdio: i%4 == 0, Second: -1}
 							if i%8 == 3 {
 								k.Second = []int{0, 10, B + 1}[i%3]
 							}
